@@ -33,15 +33,18 @@ TRUSTED_BASE = [
     "correspondence harness tools/props/c02.py, tools/props/c02_index.py, tools/vlib.py",
 ]
 UNPROVED = [
-    "GCXS indices containing None in the positions the code handles correctly (at least two surviving axes, no integer before "
-    "the None): modelled (Model/GcxsGetitem.v reinsert_none) and tested by exact correspondence, NOT proved — "
-    "gcxs_getitem_den_partial / gcxs_getitem_wf_partial (every ndim >= 2, every compressed-axes choice, every basic index) "
-    "assume an index without None",
-    "GCXS indices with ONE index array (get_array_selection reached through the wrapper): kernel proved (gcxs_selection_spec), "
-    "wrapper modelled and tested by exact correspondence, the wrapper theorem NOT proved",
+    "GCXS getitem with SEVERAL index arrays: false of the code (finding D21, outer-product shape) — no theorem, clause only",
+    "GCXS getitem with None and fewer than two surviving axes, or None after an integer: false of the code (D22/D27/D28, "
+    "refuted in Props); every other None position is proved (gcxs_getitem_den_partial / gcxs_getitem_wf_partial)",
     "the GCXS theorems assume strictly increasing compressed axes (GCXS.__init__ -> check_compressed_axes enforces it; "
-    "c05's gcxs_wfb does not record it, so it is a separate hypothesis)",
-    "the scalar-vs-0-d rule for indices with arrays (never scalar on either side) is not stated separately",
+    "c05's gcxs_wfb does not record it, so it is a separate hypothesis) and, for ndim = 1, empty compressed_axes/indptr fields",
+    "normalize_index idempotence: proved per slice entry when the normalised stop is >= 0 (slice_norm_idempotent_partial), "
+    "refuted in general (normalize_index_not_idempotent); the lift of the positive part to whole index tuples (integers, None, "
+    "wrapped arrays are fixed points entry by entry) is not stated as a theorem",
+    "hand-transcribed glue of normalize_index that is NOT a generated fragment: the loops themselves (map over the entries, "
+    "zip with none_shape, the none_shape construction, tuple concatenation `idx += (slice(None),) * k`); every scalar decision "
+    "inside them (replace_ellipsis, n_sliced_dims count, pad count, too-many test, check_index, sanitize, replace_none, "
+    "posify_index, clip_slice) is regenerated from /repo",
 ]
 ASSUMPTIONS = ["element values are opaque; dtype handling is not modelled"]
 
